@@ -160,6 +160,7 @@ type HealthRec struct {
 	Deadline     time.Duration // ctx deadline minus call time; -1 none
 	TokenAtCall  string
 	LeaderAtCall bool
+	Gid          uint64
 }
 
 type NotifRec struct {
